@@ -101,6 +101,31 @@ def eval_exact(t, env, pars=None):
     raise ValueError(op)
 
 
+def robust_zero(t, env, pars):
+    """The term evaluates to exactly 0.0 in plain double arithmetic as well (e.g. a sum of squares at the origin)."""
+    import math as _m
+
+    def go(u):
+        k = u['k']
+        if k == 'const':
+            return u['q'][0] / u['q'][1]
+        if k == 'var':
+            return float(env[name_of(u['n'])])
+        if k == 'par':
+            return float((pars or {})[u['p']])
+        if k == 'un':
+            a = go(u['a'])
+            f = u['f']
+            return {'neg': lambda z: -z, 'abs': abs, 'sqrt': _m.sqrt, 'sin': _m.sin, 'tan': _m.tan, 'sinh': _m.sinh, 'tanh': _m.tanh,
+                    'asin': _m.asin, 'atan': _m.atan, 'asinh': _m.asinh, 'atanh': _m.atanh}.get(f, lambda z: float('nan'))(a)
+        l, r = go(u['l']), go(u['r'])
+        return {'+': lambda: l + r, '-': lambda: l - r, '*': lambda: l * r, '/': lambda: l / r, '**': lambda: l ** r}[u['op']]()
+    try:
+        return go(t) == 0.0
+    except Exception:
+        return False
+
+
 class MPEval:
     """High-precision evaluation tracking the largest intermediate magnitude (for tolerances).
     `strict` enforces the regular-point margins of DESIGN.md 2.4."""
@@ -135,6 +160,10 @@ class MPEval:
             return self.note(MP.mpf(v.numerator) / v.denominator if isinstance(v, Fr) else MP.mpf(v))
         if k == 'un':
             a = self.ev(t['a'])
+            if t['f'] == 'sqrt' and abs(a) < 1e-30 and not robust_zero(t['a'], self.env, self.pars):
+                # the argument vanishes only in exact arithmetic (0.3 + 0.2 - 0.5): in doubles it is +-1e-17 and the
+                # square root is NaN or 1e-8 - an ill-conditioned point, unlike sqrt(0*0 + 0*0)
+                raise Irregular('sqrt of a zero that is not exact in floating point')
             return self.note(self.un(t['f'], a))
         l = self.ev(t['l'])
         r = self.ev(t['r'])
@@ -266,6 +295,8 @@ def value_and_error(t, env, pars=None, deriv=False):
             return v, EPS * abs(v)
         if k == 'un':
             a, ea = go(u['a'])
+            if u['f'] == 'sqrt' and abs(a) < 1e-30 and not robust_zero(u['a'], e.env, e.pars):
+                raise Irregular('sqrt of a zero that is not exact in floating point')
             v = e.note(e.un(u['f'], a))
             return v, DPRIME[u['f']](a) * ea + EPS * abs(v)
         l, el = go(u['l'])
